@@ -1,4 +1,91 @@
-import MoPepGen.Spec.CallVariant
+import MoPepGen.Lemmas.SpecMono
+import MoPepGen.Props.C10
+/-!
+# C01 — completeness of callVariant  (PARTIAL: the graph construction is not modelled)
+
+What is proved here, for ALL inputs: the executable oracle `Spec.callVariant`, which the
+check evaluates on the inputs of the real command, is exactly the declarative statement of
+the property (∃ compatible combination of the usable records … minus the unmodified
+transcript's products and the canonical pool), its haplotypes are exactly the separated
+sub-collections of the record pool, and its digest is the digest proved correct in C10.
+That the REAL command reports every member of this set is decided per generated input by
+the differential `harness/c01.py` (no theorem quantifies over the real graph algorithm).
+-/
 namespace MoPepGen.Props.C01
-theorem placeholder : True := trivial
+open MoPepGen MoPepGen.Spec
+
+/-- `p` is a digestion-product form of the transcript carrying haplotype `h` -/
+def ProductOf (g : Cfg) (t : TxIn) (h : List Var) (p : Pep) : Prop :=
+  p ∈ peptidesOf g t (applyHap t.seq h) (secAfter t.sec h) t.endNF
+
+/-- The oracle has no hidden operational choices: it is the ∃-haplotype definition. -/
+theorem spec_declarative (g : Cfg) (t : TxIn) (vs : List Var) (p : Pep) :
+    p ∈ callVariant g t vs ↔
+      (∃ h ∈ haplotypes t vs, ProductOf g t h p) ∧
+        p ∉ referencePeptides g t ∧ p ∉ g.canonical := by
+  simp only [callVariant, ProductOf, List.mem_filter, List.mem_flatMap, Bool.and_eq_true,
+    Bool.not_eq_true', List.contains_eq_mem, decide_eq_false_iff_not]
+
+/-- A haplotype is exactly: a sub-collection of the record pool (usable records and merged
+adjacent pairs) that is non-empty and, in ascending order, strictly separated. -/
+theorem haplotype_spec (t : TxIn) (vs h : List Var) :
+    h ∈ haplotypes t vs ↔
+      ∃ s, s.Sublist (recordPool t vs) ∧ h = sortByStart s ∧ h ≠ [] ∧ separated h = true := by
+  simp only [haplotypes, List.mem_filter, List.mem_map, mem_sublists, Bool.and_eq_true,
+    Bool.not_eq_true', List.isEmpty_eq_false_iff]
+  constructor
+  · rintro ⟨⟨s, hs, rfl⟩, hne, hsep⟩
+    exact ⟨s, hs, rfl, hne, hsep⟩
+  · rintro ⟨s, hs, rfl, hne, hsep⟩
+    exact ⟨⟨s, hs, rfl⟩, hne, hsep⟩
+
+/-- every record of a haplotype is a usable input record or the merged form of two of them -/
+theorem haplotype_records_usable (t : TxIn) (vs h : List Var) (hh : h ∈ haplotypes t vs) :
+    ∀ v ∈ h, v ∈ recordPool t vs := by
+  obtain ⟨s, hs, rfl, _, _⟩ := (haplotype_spec t vs h).mp hh
+  intro v hv
+  have hperm : ∀ (l : List Var) (x : Var), x ∈ sortByStart l → x ∈ l := by
+    intro l
+    induction l with
+    | nil => intro x hx; simpa [sortByStart] using hx
+    | cons a l ih =>
+      intro x hx
+      simp only [sortByStart, List.foldr_cons] at hx
+      have hins : ∀ (w : Var) (ws : List Var) (y : Var), y ∈ insertByStart w ws → y = w ∨ y ∈ ws := by
+        intro w ws
+        induction ws with
+        | nil => intro y hy; simpa [insertByStart] using hy
+        | cons z zs ihz =>
+          intro y hy
+          simp only [insertByStart] at hy
+          split at hy
+          · simpa using hy
+          · rcases List.mem_cons.mp hy with h1 | h1
+            · exact Or.inr (by simp [h1])
+            · rcases ihz y h1 with h2 | h2
+              · exact Or.inl h2
+              · exact Or.inr (List.mem_cons_of_mem _ h2)
+      rcases hins a _ x hx with h1 | h1
+      · simp [h1]
+      · exact List.mem_cons_of_mem _ (ih x h1)
+  exact hs.subset (hperm s v hv)
+
+/-- every reported form meets the length and mass limits -/
+theorem reported_within_limits (g : Cfg) (t : TxIn) (vs : List Var) (p : Pep)
+    (h : p ∈ callVariant g t vs) : pepOk g.cleave p = true := by
+  obtain ⟨⟨hp, _, hprod⟩, _⟩ := (spec_declarative g t vs p).mp h
+  simp only [ProductOf, peptidesOf, List.mem_flatMap] at hprod
+  obtain ⟨s, _, hs⟩ := hprod
+  simp only [productForms, List.mem_filter] at hs
+  exact hs.2
+
+/-- the raw digest inside the definition is the loop-free reading of C10's `enzymatic_cleave`
+candidates, whose sites are the positional ExPASy sites (`Props.C10.sites_eq_isSite`) -/
+theorem digest_is_C10 (c : CleaveCfg) (prot : Pep) (nf : Bool) (p : Pep) :
+    p ∈ rawProducts c prot nf false ↔
+      p ∈ cleaveCandidates prot
+        (bounds ((List.range (prot.length + 1)).filter (isSite c.rule c.exc prot)) prot.length)
+        c.misc nf := by
+  rw [rawProducts_eq_candidates, Props.C10.sites_eq_isSite]
+
 end MoPepGen.Props.C01
